@@ -222,11 +222,24 @@ class RegionHarness(Harness):
       want_da = {None: styles.DisplayAlignType.before, "start": styles.DisplayAlignType.before, "center": styles.DisplayAlignType.center,
                  "end": styles.DisplayAlignType.after}[la]
       ex.prove(r.get_style(SP.DisplayAlign) is want_da, "C11:display-align", det)
+    # a second cue that differs only in its line setting: whatever region it gets (shared or new) must carry the display
+    # alignment its own settings ask for
+    if lk == 1 and params["align"] == 0:
+      la2 = LINE_ALIGN[ex.choice("line_align2", 4)]
+      lz2 = ex.integer("line_pct2", 0, 100)
+      ex.syms["@pct∶line2"] = lz2
+      key2 = "@pct∶line2" if ex.symbolic else "%d%%" % lz2
+      settings2 = [st for st in settings if not st.startswith("line:")] + ["line:" + key2 + ("," + la2 if la2 else "")]
+      rb, exc = call(ex, vtt_reader._get_or_make_region, doc, settings2)
+      if not exc:
+        want_da2 = {None: styles.DisplayAlignType.before, "start": styles.DisplayAlignType.before, "center": styles.DisplayAlignType.center,
+                    "end": styles.DisplayAlignType.after}[la2]
+        ex.prove(rb.get_style(SP.DisplayAlign) is want_da2, "C11:display-align", dict(det, second_cue=True, shared=rb is r))
     # equal settings => the same region object
     r2, exc = call(ex, vtt_reader._get_or_make_region, doc, list(settings))
     if not exc:
       ex.witness("region-shared")
-      ex.prove(r2 is r and len(list(doc.iter_regions())) == 1, "C11:equal-settings-share-region", det)
+      ex.prove(r2 is r, "C11:equal-settings-share-region", det)
 
 
 register(RegionHarness())
@@ -406,7 +419,7 @@ class TokenizerHarness(Harness):
 
 register(TokenizerHarness())
 
-TOKENS = ["x", "<b>", "</b>", "<i>", "</i>", "<u>", "</u>", "<c.red>", "<c.bg_blue.yellow>", "</c>", "<v Bob>", "</v>", "<lang en>", "</lang>",
+TOKENS = ["x", "<b>", "</b>", "<i>", "</i>", "<u>", "</u>", "<c.loud.red>", "<c.bg_blue.yellow>", "</c>", "<v Bob>", "</v>", "<lang en>", "</lang>",
           "<ruby>", "</ruby>", "<rt>", "</rt>", "<00:00:01.500>", "y\nz", "&amp;", "&lt;"]
 
 
@@ -416,8 +429,8 @@ def ref_tree(seq, begin):
   out = []
   stack = []
   ok = True
-  names = {"<b>": "b", "<i>": "i", "<u>": "u", "<c.red>": "c", "<c.bg_blue.yellow>": "c", "<v Bob>": "v", "<lang en>": "lang", "<ruby>": "ruby", "<rt>": "rt"}
-  sty = {"<b>": ("b",), "<i>": ("i",), "<u>": ("u",), "<c.red>": ("color", "red"), "<c.bg_blue.yellow>": ("colors", "bg_blue", "yellow"),
+  names = {"<b>": "b", "<i>": "i", "<u>": "u", "<c.loud.red>": "c", "<c.bg_blue.yellow>": "c", "<v Bob>": "v", "<lang en>": "lang", "<ruby>": "ruby", "<rt>": "rt"}
+  sty = {"<b>": ("b",), "<i>": ("i",), "<u>": ("u",), "<c.loud.red>": ("color", "red"), "<c.bg_blue.yellow>": ("colors", "bg_blue", "yellow"),
          "<v Bob>": None, "<lang en>": ("lang", "en"), "<ruby>": None, "<rt>": ("rt",)}
   ts = None
   for t in seq:
@@ -509,11 +522,16 @@ class CueTreeHarness(Harness):
       seq.append(TOKENS[c])
     text = "".join(seq)
     doc = model.ContentDocument()
+    body_, div_ = model.Body(doc), model.Div(doc)
+    doc.set_body(body_)
+    body_.push_child(div_)
     p = model.P(doc)
-    p.set_begin(Fraction(1))
+    div_.push_child(p)
+    pbegin = Fraction(1) if ("<00:00:01.500>" not in seq or ex.boolean("cue_starts_at_one")) else Fraction(0)
+    p.set_begin(pbegin)
     p.set_end(Fraction(5))
     _, exc = call(ex, vtt_reader._parse_cue_text, text, p, 0)
-    want, ok = ref_tree(seq, Fraction(1))
+    want, ok = ref_tree(seq, pbegin)
     det = {"well_nested": ok, "rt_outside_ruby": "<rt>" in seq and ("<ruby>" not in seq or seq.index("<rt>") < seq.index("<ruby>")),
            "ruby": "<ruby>" in seq, "timestamps": min(2, seq.count("<00:00:01.500>"))}
     depth = 0
